@@ -11,7 +11,7 @@
 //! input  = (L (L default_ext cache fcache (B public_dir) files handlers options) requests)
 //!   files    = (L (L (B path-relative-to-the-run-dir) (B content)) ...)   the host directory is `<run dir>/host`
 //!   handlers = (L (L (B path) (B body) (N spref)) ...)    path-bound Prepare extensions (status 200); spref 0 None, 1 QueryMatters, 2 Full
-//!   options  = (L (B errors_dir) (B extension_default) (B folder_default) (N disable_fs))
+//!   options  = (L (B errors_dir) (B extension_default) (B folder_default) (N disable_fs) (B host_header))
 //!   requests = (L (L (B method) (B target) (N origin_kind)) ...)
 //!            | (L (N 1) (B from) (B to))   the response-cache entry under UriKey::Path(from) is copied to UriKey::Path(to) -> (L (N found))
 //!     origin_kind: 0 no Origin header, 1 `Origin` of the same site, 2 `Origin` of another site,
@@ -243,7 +243,7 @@ struct H1 {
     stream: Option<tokio::net::TcpStream>,
 }
 impl H1 {
-    async fn exchange(&mut self, front: &Front, method: &[u8], target: &[u8], kind: u128) -> Exchange {
+    async fn exchange(&mut self, front: &Front, host_header: &[u8], method: &[u8], target: &[u8], kind: u128) -> Exchange {
         use tokio::io::{AsyncReadExt, AsyncWriteExt};
         if self.stream.is_none() {
             self.stream = Some(front.connect().await?);
@@ -252,7 +252,9 @@ impl H1 {
         req.extend_from_slice(method);
         req.push(b' ');
         req.extend_from_slice(target);
-        req.extend_from_slice(b" HTTP/1.1\r\nhost: localhost\r\n");
+        req.extend_from_slice(b" HTTP/1.1\r\nhost: ");
+        req.extend_from_slice(host_header);
+        req.extend_from_slice(b"\r\n");
         for (n, v) in headers_of(kind, SITE) {
             req.extend_from_slice(n.as_bytes());
             req.extend_from_slice(b": ");
@@ -628,10 +630,12 @@ fn run(x: &X, mode: Mode) -> Option<Option<X>> {
     let (default_ext, cache, fcache) = (c[0].as_bool()?, c[1].as_bool()?, c[2].as_bool()?);
     let public = c[3].as_b()?.to_vec();
     let o = c[6].as_l()?;
-    if o.len() != 4 {
+    if o.len() != 5 {
         return None;
     }
     let (errors, ext, folder, nofs) = (o[0].as_b()?.to_vec(), o[1].as_b()?.to_vec(), o[2].as_b()?.to_vec(), o[3].as_bool()?);
+    // what the client writes into the Host header (HTTP/1.1 and in process; over HTTP/2 ':authority' is the site's)
+    let host_header = o[4].as_b()?.to_vec();
     let mut handlers = Vec::new();
     for h in c[5].as_l()? {
         let h = h.as_l()?;
@@ -655,6 +659,8 @@ fn run(x: &X, mode: Mode) -> Option<Option<X>> {
         kvp("fcache", X::bool(fcache)),
         kvp("files", c[4].clone()),
         kvp("handlers", X::L(handlers)),
+        // the default host: it is selected whatever the client writes into the Host header
+        kvp("default_host", X::bool(true)),
     ];
     let secure = mode == Mode::H2 || mode == Mode::H2Raw;
     let customize = move |_kv: &[(String, X)], host: &mut Host, shared: &Arc<pipe::Shared>| {
@@ -750,7 +756,9 @@ fn run(x: &X, mode: Mode) -> Option<Option<X>> {
                         built.shared.log.lock().unwrap().clear();
                         let answer: Option<(u16, Vec<u8>)> = match mode {
                             Mode::InProc => {
-                                let hdrs: Vec<X> = headers_of(*kind, SITE).into_iter().map(|(n, v)| X::L(vec![X::b(n), X::b(v)])).collect();
+                                let mut hdrs: Vec<X> = headers_of(*kind, SITE).into_iter().map(|(n, v)| X::L(vec![X::b(n), X::b(v)])).collect();
+                                // (c00pipe::make_request builds the URI "http://" + this header + target, as kvarn's readers do)
+                                hdrs.push(X::L(vec![X::b("host"), X::b(&host_header)]));
                                 match pipe::make_request(&built.host_name, method, target, &hdrs, b"") {
                                     None => None,
                                     Some(mut req) => {
@@ -768,7 +776,7 @@ fn run(x: &X, mode: Mode) -> Option<Option<X>> {
                                     }
                                 }
                             }
-                            Mode::H1 => h1.exchange(front.as_ref()?, method, target, *kind).await?,
+                            Mode::H1 => h1.exchange(front.as_ref()?, &host_header, method, target, *kind).await?,
                             Mode::H2 => h2.exchange(front.as_ref()?, method, target, *kind).await?,
                             Mode::H2Raw => h2raw_exchange(front.as_ref()?, method, target, *kind, reason400.as_deref()).await?,
                         };
